@@ -356,10 +356,120 @@ pub struct C07State {
 }
 #[derive(Default)]
 pub struct C11State {
-    pub names: HashMap<usize, String>,
+    /// per session: (state name, had prove state)
+    pub names: HashMap<usize, (String, bool)>,
+    /// sessions the model expects the running refresh tick to disconnect
+    pub expect_timeout: HashSet<usize>,
+    pub no_timeout_expected: HashSet<usize>,
+    pub disconnected_in_tick: HashSet<usize>,
+    pub in_refresh_tick: bool,
+    /// per session: header / tx hashes in flight when the session closed
+    pub inflight: HashMap<usize, (Vec<Vec<u8>>, Vec<Vec<u8>>)>,
+}
+
+fn c11_edge_ok(from: &str, to: &str) -> bool {
+    // the documented edges (plus the prove-state copy OnlyHasLastState -> Ready)
+    const E: &[(&str, &str)] = &[
+        ("Initialized", "RequestFirstLastState"),
+        ("RequestFirstLastState", "OnlyHasLastState"),
+        ("OnlyHasLastState", "RequestFirstLastStateProof"),
+        ("OnlyHasLastState", "Ready"),
+        ("RequestFirstLastStateProof", "Ready"),
+        ("Ready", "RequestNewLastState"),
+        ("RequestNewLastState", "Ready"),
+        ("Ready", "RequestNewLastStateProof"),
+        ("RequestNewLastStateProof", "Ready"),
+    ];
+    if from == to {
+        return true;
+    }
+    // one handler call may take up to three documented steps
+    let mut frontier = vec![from.to_string()];
+    for _ in 0..3 {
+        let mut next = Vec::new();
+        for f in &frontier {
+            for (a, b) in E {
+                if a == f {
+                    if *b == to {
+                        return true;
+                    }
+                    next.push(b.to_string());
+                }
+            }
+        }
+        frontier = next;
+    }
+    false
+}
+
+fn c11_state_name(st: &crate::protocols::light_client::PeerState) -> String {
+    let s = format!("{}", st);
+    s.trim_start_matches("PeerState::")
+        .split(' ')
+        .next()
+        .unwrap_or("")
+        .to_string()
+}
+
+fn c11_parse(field: &str, text: &str) -> Option<u64> {
+    let i = text.find(field)?;
+    let rest = &text[i + field.len()..];
+    let digits: String = rest.chars().skip_while(|c| !c.is_ascii_digit()).take_while(|c| c.is_ascii_digit()).collect();
+    digits.parse().ok()
+}
+
+/// Run after every event: edges, prove state never dropped by an update.
+pub fn c11_scan(ck: &mut Checker, sim: &mut Sim) {
+    let c = match sim.client.as_ref() {
+        Some(c) => c,
+        None => return,
+    };
+    let mut findings: Vec<(&str, String)> = Vec::new();
+    let mut transitions = 0;
+    let sessions: Vec<usize> = sim.sessions.keys().cloned().collect();
+    for s in sessions {
+        if let Some(st) = c.peers.get_state(&PeerIndex::new(s)) {
+            let name = c11_state_name(&st);
+            let has_prove = st.get_prove_state().is_some();
+            if let Some((prev, prev_prove)) = ck.c11.names.get(&s).cloned() {
+                if prev != name {
+                    transitions += 1;
+                    if !c11_edge_ok(&prev, &name) {
+                        findings.push((
+                            "undocumented_transition",
+                            format!("s{}: {} -> {} during {}", s, prev, name, sim.last_event_kind),
+                        ));
+                    }
+                }
+                if prev_prove && !has_prove {
+                    findings.push((
+                        "prove_state_discarded",
+                        format!("s{}: {} -> {} lost its prove state during {}", s, prev, name, sim.last_event_kind),
+                    ));
+                }
+            }
+            ck.c11.names.insert(s, (name, has_prove));
+        }
+    }
+    if transitions > 0 {
+        sim.stat_add("probe.c11.transitions", transitions);
+    }
+    for (clause, detail) in findings {
+        sim.violate("C11", clause, detail);
+    }
+}
+#[derive(Clone, Debug, PartialEq)]
+pub enum FetchSt {
+    Added(u64),
+    Fetching(u64),
+    Fetched,
+    NotFound,
 }
 #[derive(Default)]
-pub struct C16State {}
+pub struct C16State {
+    /// (is_tx, hash) -> (last status, client incarnation, client tip number when first asked)
+    pub st: BTreeMap<(bool, Vec<u8>), (FetchSt, u64, u64)>,
+}
 #[derive(Default)]
 pub struct C18State {}
 #[derive(Default)]
@@ -749,16 +859,154 @@ pub fn c07_check(ck: &mut Checker, sim: &mut Sim) {
 pub fn c07_on_ban(_ck: &mut Checker, _sim: &mut Sim, _s: usize, _r: &str) {}
 pub fn c07_at_end(_ck: &mut Checker, _sim: &mut Sim) {}
 
-pub fn c11_on_boot(_ck: &mut Checker, _sim: &mut Sim) {}
+pub fn c11_on_boot(ck: &mut Checker, _sim: &mut Sim) {
+    ck.c11.names.clear();
+    ck.c11.inflight.clear();
+}
 pub fn c11_on_client_send(_ck: &mut Checker, _sim: &mut Sim, _s: usize, _p: Proto, _d: &Bytes) {}
 pub fn c11_on_ban(_ck: &mut Checker, _sim: &mut Sim, _s: usize, _r: &str) {}
-pub fn c11_on_disconnect(_ck: &mut Checker, _sim: &mut Sim, _s: usize, _m: &str) {}
-pub fn c11_on_connect(_ck: &mut Checker, _sim: &mut Sim, _s: usize, _p: usize) {}
-pub fn c11_on_session_closed(_ck: &mut Checker, _sim: &mut Sim, _s: usize, _p: usize) {}
-pub fn c11_before(_ck: &mut Checker, _sim: &mut Sim, _s: usize, _p: Proto, _d: &Bytes, _t: &Tag) {}
+pub fn c11_on_disconnect(ck: &mut Checker, _sim: &mut Sim, s: usize, _m: &str) {
+    if ck.c11.in_refresh_tick {
+        ck.c11.disconnected_in_tick.insert(s);
+    }
+}
+pub fn c11_on_connect(ck: &mut Checker, _sim: &mut Sim, s: usize, _p: usize) {
+    ck.c11.names.insert(s, ("Initialized".to_string(), false));
+}
+
+/// (v) a closed session leaves no state behind, and its in-flight fetches become eligible again
+pub fn c11_on_session_closed(ck: &mut Checker, sim: &mut Sim, s: usize, _p: usize) {
+    ck.c11.names.remove(&s);
+    let c = match sim.client.as_ref() {
+        Some(c) => c,
+        None => return,
+    };
+    let mut findings: Vec<(&str, String)> = Vec::new();
+    if c.peers.get_state(&PeerIndex::new(s)).is_some() {
+        findings.push(("state_left_behind_after_disconnect", format!("s{} still has a peer state", s)));
+    }
+    if let Some((headers, txs)) = ck.c11.inflight.remove(&s) {
+        let to_fetch_h: HashSet<Vec<u8>> = c.peers.get_headers_to_fetch().iter().map(|h| h.as_slice().to_vec()).collect();
+        let to_fetch_t: HashSet<Vec<u8>> = c.peers.get_txs_to_fetch().iter().map(|h| h.as_slice().to_vec()).collect();
+        for h in headers {
+            let b = Byte32::from_slice(&h).unwrap();
+            if let Some((_, _, missing)) = c.peers.get_header_fetch_info(&b) {
+                if !missing && !to_fetch_h.contains(&h) {
+                    findings.push((
+                        "inflight_fetch_lost_with_the_session",
+                        format!("header {:#x} was requested from s{} and is not eligible for another peer", b, s),
+                    ));
+                }
+            }
+        }
+        for h in txs {
+            let b = Byte32::from_slice(&h).unwrap();
+            if let Some((_, _, missing)) = c.peers.get_tx_fetch_info(&b) {
+                if !missing && !to_fetch_t.contains(&h) {
+                    findings.push((
+                        "inflight_fetch_lost_with_the_session",
+                        format!("transaction {:#x} was requested from s{} and is not eligible for another peer", b, s),
+                    ));
+                }
+            }
+        }
+    }
+    for (clause, detail) in findings {
+        sim.violate("C11", clause, detail);
+    }
+}
+
+/// remember what each session has in flight (evaluated when it closes)
+pub fn c11_before(ck: &mut Checker, sim: &mut Sim, _s: usize, _p: Proto, _d: &Bytes, _t: &Tag) {
+    c11_note_inflight(ck, sim);
+}
+fn c11_note_inflight(ck: &mut Checker, sim: &mut Sim) {
+    let c = match sim.client.as_ref() {
+        Some(c) => c,
+        None => return,
+    };
+    for s in sim.sessions.keys() {
+        if let Some(peer) = c.peers.get_peer(&PeerIndex::new(*s)) {
+            let hs: Vec<Vec<u8>> = peer
+                .get_blocks_proof_request()
+                .map(|r| r.block_hashes().iter().map(|h| h.as_bytes().to_vec()).collect())
+                .unwrap_or_default();
+            let ts: Vec<Vec<u8>> = peer
+                .get_txs_proof_request()
+                .map(|r| r.tx_hashes().iter().map(|h| h.as_bytes().to_vec()).collect())
+                .unwrap_or_default();
+            ck.c11.inflight.insert(*s, (hs, ts));
+        }
+    }
+}
 pub fn c11_after(_ck: &mut Checker, _sim: &mut Sim, _s: usize, _p: Proto, _d: &Bytes, _t: &Tag) {}
-pub fn c11_before_timer(_ck: &mut Checker, _sim: &mut Sim, _p: Proto, _t: u64) {}
-pub fn c11_after_timer(_ck: &mut Checker, _sim: &mut Sim, _p: Proto, _t: u64) {}
+
+/// (iii) the refresh tick disconnects exactly the peers whose request or last state is older
+/// than the message timeout
+pub fn c11_before_timer(ck: &mut Checker, sim: &mut Sim, proto: Proto, token: u64) {
+    c11_note_inflight(ck, sim);
+    ck.c11.in_refresh_tick = proto == Proto::LightClient && token == 0;
+    ck.c11.expect_timeout.clear();
+    ck.c11.no_timeout_expected.clear();
+    ck.c11.disconnected_in_tick.clear();
+    if !ck.c11.in_refresh_tick {
+        return;
+    }
+    let c = match sim.client.as_ref() {
+        Some(c) => c,
+        None => return,
+    };
+    let now = crate::sim::abs_now(sim.now);
+    for s in sim.sessions.keys() {
+        if let (Some(st), Some(peer)) = (
+            c.peers.get_state(&PeerIndex::new(*s)),
+            c.peers.get_peer(&PeerIndex::new(*s)),
+        ) {
+            let text = format!("{:#}", st);
+            let when_sent = c11_parse("when_sent:", &text);
+            let update_ts = st.get_last_state().map(|l| l.update_ts());
+            let by_request = when_sent.map(|w| now > w + 60_000).unwrap_or(false);
+            let by_state = update_ts.map(|u| now > u + 60_000).unwrap_or(false);
+            let other_requests = peer.get_blocks_proof_request().is_some()
+                || peer.get_blocks_request().is_some()
+                || peer.get_txs_proof_request().is_some();
+            if by_request || by_state {
+                ck.c11.expect_timeout.insert(*s);
+            } else if !other_requests {
+                ck.c11.no_timeout_expected.insert(*s);
+            }
+        }
+    }
+}
+pub fn c11_after_timer(ck: &mut Checker, sim: &mut Sim, _proto: Proto, _token: u64) {
+    if !ck.c11.in_refresh_tick {
+        return;
+    }
+    ck.c11.in_refresh_tick = false;
+    let mut findings: Vec<(&str, String)> = Vec::new();
+    for s in ck.c11.expect_timeout.iter() {
+        if !ck.c11.disconnected_in_tick.contains(s) {
+            findings.push((
+                "timed_out_peer_not_disconnected",
+                format!("s{}: request or last state older than 60 s at the refresh tick, but no disconnect", s),
+            ));
+        }
+    }
+    for s in ck.c11.no_timeout_expected.iter() {
+        if ck.c11.disconnected_in_tick.contains(s) {
+            findings.push((
+                "peer_disconnected_without_a_timeout",
+                format!("s{}: disconnected by the refresh tick although nothing was older than 60 s", s),
+            ));
+        }
+    }
+    if !ck.c11.disconnected_in_tick.is_empty() {
+        sim.stat("probe.c11.timeout_disconnects");
+    }
+    for (clause, detail) in findings {
+        sim.violate("C11", clause, detail);
+    }
+}
 
 pub fn c01_before(_ck: &mut Checker, _sim: &mut Sim, _s: usize, _p: Proto, _d: &Bytes, _t: &Tag) {}
 
@@ -1138,6 +1386,41 @@ pub fn c06_after(ck: &mut Checker, sim: &mut Sim, session: usize, _p: Proto, dat
     }
 }
 pub fn c16_after_deliver(_ck: &mut Checker, _sim: &mut Sim, _s: usize, _p: Proto, _d: &Bytes, _t: &Tag) {}
-pub fn c16_at_end(_ck: &mut Checker, _sim: &mut Sim) {}
+
+/// Liveness: with an honest proven peer connected and faults stopped, every fetch is answered.
+pub fn c16_at_end(ck: &mut Checker, sim: &mut Sim) {
+    if !ck.flag("fetch") || sim.client.is_none() {
+        return;
+    }
+    if !sim.peers.iter().any(|p| p.session.is_some()) {
+        return;
+    }
+    let keys: Vec<(bool, Vec<u8>)> = ck.c16.st.keys().cloned().collect();
+    for (is_tx, h) in keys {
+        let hash = Byte32::from_slice(&h).unwrap();
+        let method = if is_tx { "fetch_transaction" } else { "fetch_header" };
+        let r = crate::user::rpc(sim, method, serde_json::json!([crate::user::h256_json(&hash)]));
+        if let Some(Ok(v)) = r {
+            let status = v["status"].as_str().unwrap_or("").to_string();
+            let (last, linc, asked_at_tip) = ck.c16.st[&(is_tx, h.clone())].clone();
+            // an item that is really missing cycles not_found -> added -> fetching -> not_found
+            let answered_before = linc == sim.incarnation && matches!(last, FetchSt::NotFound | FetchSt::Fetched);
+            // after a restart the in-memory fetch list is gone: this poll was a fresh request
+            let fresh = linc != sim.incarnation;
+            if (status == "added" || status == "fetching") && !answered_before && !fresh {
+                sim.violate(
+                    "C16",
+                    "fetch_not_completed_after_faults_stopped",
+                    format!(
+                        "{} {:#x} is still '{}' at the end of the run (asked when the tip was #{}, quiet since {} ms, now {} ms)",
+                        method, hash, status, asked_at_tip, sim.plan.quiet_from, sim.now
+                    ),
+                );
+            } else {
+                sim.stat("probe.c16.completed");
+            }
+        }
+    }
+}
 pub fn c18_on_client_send(_ck: &mut Checker, _sim: &mut Sim, _s: usize, _p: Proto, _d: &Bytes) {}
 pub fn c18_at_end(_ck: &mut Checker, _sim: &mut Sim) {}
